@@ -103,6 +103,9 @@ func runStructural(name string, P *Program) (checked int, violations []string) {
 	if name == "json_field_coverage" {
 		return jsonFieldCoverage(P)
 	}
+	if name == "copy_accessor_coverage" {
+		return copyAccessorCoverage(P)
+	}
 	return 0, []string{"unknown structural check " + name}
 }
 
@@ -256,6 +259,143 @@ func jsonFieldCoverage(P *Program) (checked int, violations []string) {
 				}
 				return true
 			})
+		}
+	}
+	sort.Strings(violations)
+	return checked, violations
+}
+
+// copyAccessorCoverage (C07): for every pdata struct wrapper X (a struct with fields orig, state) of
+// the loaded pdata packages whose CopyTo is a flat list of statements: every setter SetF of X is
+// called on dest in CopyTo (dest.SetF(...)), and every getter G of X that returns a wrapper which
+// itself has a CopyTo is copied (ms.G().CopyTo(dest.G())). A field whose accessor pair is missing
+// from CopyTo is silently not copied. Wrappers whose CopyTo branches (one-of types) are not judged.
+func copyAccessorCoverage(P *Program) (checked int, violations []string) {
+	var paths []string
+	for p := range P.ByPath {
+		if strings.HasPrefix(p, "go.opentelemetry.io/collector/pdata/p") {
+			paths = append(paths, p)
+		}
+	}
+	sort.Strings(paths)
+	for _, path := range paths {
+		pkg := P.ByPath[path]
+		for _, file := range pkg.Syntax {
+			fname := P.Fset.Position(file.Pos()).Filename
+			if strings.HasSuffix(fname, "_test.go") {
+				continue
+			}
+			for _, d := range file.Decls {
+				fd, ok := d.(*ast.FuncDecl)
+				if !ok || fd.Name.Name != "CopyTo" || fd.Recv == nil || fd.Body == nil || len(fd.Recv.List) != 1 || len(fd.Recv.List[0].Names) != 1 {
+					continue
+				}
+				recvObj := pkg.TypesInfo.Defs[fd.Recv.List[0].Names[0]]
+				if recvObj == nil {
+					continue
+				}
+				named, ok := types.Unalias(recvObj.Type()).(*types.Named)
+				if !ok {
+					continue
+				}
+				st, ok := named.Underlying().(*types.Struct)
+				if !ok || st.NumFields() != 2 || st.Field(0).Name() != "orig" {
+					continue
+				}
+				if _, isSlice := st.Field(0).Type().Underlying().(*types.Pointer).Elem().Underlying().(*types.Slice); isSlice {
+					continue // slice wrappers are under contract, not judged here
+				}
+				flat := true
+				ast.Inspect(fd.Body, func(n ast.Node) bool {
+					switch n.(type) {
+					case *ast.SwitchStmt, *ast.TypeSwitchStmt, *ast.IfStmt, *ast.ForStmt, *ast.RangeStmt:
+						flat = false
+					}
+					return true
+				})
+				if !flat {
+					continue
+				}
+				recvName := fd.Recv.List[0].Names[0].Name
+				destName := ""
+				if len(fd.Type.Params.List) == 1 && len(fd.Type.Params.List[0].Names) == 1 {
+					destName = fd.Type.Params.List[0].Names[0].Name
+				}
+				setCalled := map[string]bool{}
+				copied := map[string]bool{}
+				ast.Inspect(fd.Body, func(n ast.Node) bool {
+					call, ok := n.(*ast.CallExpr)
+					if !ok {
+						return true
+					}
+					sel, ok := call.Fun.(*ast.SelectorExpr)
+					if !ok {
+						return true
+					}
+					if id, ok := sel.X.(*ast.Ident); ok && id.Name == destName && strings.HasPrefix(sel.Sel.Name, "Set") {
+						setCalled[sel.Sel.Name] = true
+					}
+					if sel.Sel.Name == "CopyTo" && len(call.Args) == 1 {
+						// ms.G().CopyTo(dest.G())
+						if inner, ok := sel.X.(*ast.CallExpr); ok {
+							if is, ok := inner.Fun.(*ast.SelectorExpr); ok {
+								if id, ok := is.X.(*ast.Ident); ok && id.Name == recvName {
+									if ac, ok := call.Args[0].(*ast.CallExpr); ok {
+										if as, ok := ac.Fun.(*ast.SelectorExpr); ok {
+											if aid, ok := as.X.(*ast.Ident); ok && aid.Name == destName && as.Sel.Name == is.Sel.Name {
+												copied[is.Sel.Name] = true
+											}
+										}
+									}
+								}
+							}
+						}
+					}
+					return true
+				})
+				ms := types.NewMethodSet(named)
+				for i := 0; i < ms.Len(); i++ {
+					m := ms.At(i).Obj().(*types.Func)
+					if !m.Exported() {
+						continue
+					}
+					sig := m.Type().(*types.Signature)
+					nm := m.Name()
+					if strings.HasPrefix(nm, "SetEmpty") {
+						continue
+					}
+					if strings.HasPrefix(nm, "Set") && sig.Params().Len() == 1 && sig.Results().Len() == 0 {
+						checked++
+						if !setCalled[nm] {
+							violations = append(violations, fmt.Sprintf("%s.%s.CopyTo does not call dest.%s: the field is not copied", pkg.Types.Name(), named.Obj().Name(), nm))
+						}
+						continue
+					}
+					if sig.Params().Len() == 0 && sig.Results().Len() == 1 {
+						rt, ok := types.Unalias(sig.Results().At(0).Type()).(*types.Named)
+						if !ok || rt.Obj().Pkg() == nil || !strings.HasPrefix(rt.Obj().Pkg().Path(), "go.opentelemetry.io/collector/pdata") {
+							continue
+						}
+						if _, isStruct := rt.Underlying().(*types.Struct); !isStruct {
+							continue
+						}
+						hasCopy := false
+						rms := types.NewMethodSet(rt)
+						for j := 0; j < rms.Len(); j++ {
+							if rms.At(j).Obj().Name() == "CopyTo" {
+								hasCopy = true
+							}
+						}
+						if !hasCopy {
+							continue
+						}
+						checked++
+						if !copied[nm] {
+							violations = append(violations, fmt.Sprintf("%s.%s.CopyTo does not copy %s() into dest.%s(): the nested value is not copied", pkg.Types.Name(), named.Obj().Name(), nm, nm))
+						}
+					}
+				}
+			}
 		}
 	}
 	sort.Strings(violations)
